@@ -462,6 +462,17 @@ pub fn gen_project(d: &mut Draw, o: &GenOpts) -> Project {
             header: None,
         });
     }
+    if p.file_graph_cyclic() {
+        // only the examples module can have closed a cycle (generic argument edge)
+        if let Some(f) = p.files.last() {
+            for it in f.items.clone() {
+                if let ItemKind::Module(m) = &mut p.items[it].kind {
+                    m.uses.clear();
+                }
+            }
+        }
+        p.counter_cyclic_placements += 1;
+    }
     p.placed = true;
     if o.warn_per_mille > 0 && d.below(1000) < o.warn_per_mille {
         let mods = p.modules();
